@@ -372,6 +372,87 @@ void run_c05(const std::vector<std::vector<std::string>>& cases, vt::Rng& rng)
    }
 }
 
+// ---- C11 -------------------------------------------------------------------------------
+// case line: <id> <param> <rel eq|twice|half> <A> <B>
+//   param: M1 M2 Mu MA0 ml2_1 me2_1 ml2_2 me2_2 mq2_2 mu2_2 md2_2   (the Lagrangian parameter that is moved)
+//   A, B : a mass name of vm::mssm_masses or a parameter magnitude absMu absM1 absM2 mslL mslR
+// The coincidence A = c B (c = 1, 2, 1/2) is located on the parameter axis by bracketing and bisection of
+// g(p) = A(p) - c B(p) (models rebuilt at every step); the path is p0 (1 + d) over the 23 offsets.
+double& param_ref(MssmPt& p, const std::string& n)
+{
+   if (n == "M1") return p.M1; if (n == "M2") return p.M2; if (n == "Mu") return p.Mu; if (n == "MA0") return p.MA0;
+   if (n == "ml2_1") return p.ml2[1]; if (n == "me2_1") return p.me2[1]; if (n == "ml2_2") return p.ml2[2]; if (n == "me2_2") return p.me2[2];
+   if (n == "mq2_2") return p.mq2[2]; if (n == "mu2_2") return p.mu2[2];
+   return p.md2[2];
+}
+
+bool mass_of(const MssmPt& p, const std::string& n, double& out)
+{
+   if (n == "absMu") { out = std::fabs(p.Mu); return true; }
+   if (n == "absM1") { out = std::fabs(p.M1); return true; }
+   if (n == "absM2") { out = std::fabs(p.M2); return true; }
+   if (n == "mslL") { out = std::sqrt(p.ml2[1]); return true; }
+   if (n == "mslR") { out = std::sqrt(p.me2[1]); return true; }
+   Built b = build(p);
+   if (!b.exc.empty() || b.model.get_problems().have_problem()) return false;
+   for (const auto& kv : vm::mssm_masses(b.model)) if (kv.first == n) { out = kv.second; return std::isfinite(out); }
+   return false;
+}
+
+const double kOffsets[] = {-1e-3, -1e-4, -1e-5, -1e-6, -1e-7, -1e-8, -1e-9, -1e-10, -1e-11, -1e-12, -1e-13, 0.0,
+                           1e-13, 1e-12, 1e-11, 1e-10, 1e-9, 1e-8, 1e-7, 1e-6, 1e-5, 1e-4, 1e-3};
+
+void run_c11(const std::vector<std::vector<std::string>>& cases, vt::Rng& rng)
+{
+   for (const auto& c : cases) {
+      const std::string& id = c.at(0);
+      const std::string &par = c.at(1), &rel = c.at(2), &A = c.at(3), &B = c.at(4);
+      const std::string sig = "S/" + par + "/" + rel + "/" + A + "," + B;
+      const double cfac = rel == "eq" ? 1.0 : rel == "twice" ? 2.0 : 0.5;
+      MssmPt p = vm::random_mssm(rng, 200, 2000, 2, 60);
+      auto g = [&](double x, double& out) {
+         MssmPt q = p; param_ref(q, par) = x;
+         double a = 0, b = 0;
+         if (!mass_of(q, A, a) || !mass_of(q, B, b)) return false;
+         out = a - cfac * b; return true;
+      };
+      // bracket a sign change on a geometric grid around the base value
+      const double base = param_ref(p, par);
+      double lo = 0, hi = 0, glo = 0, ghi = 0; bool found = false;
+      double xprev = 0, gprev = 0; bool have_prev = false;
+      for (int k = -40; k <= 40 && !found; ++k) {
+         const double x = base * std::pow(10.0, k / 40.0);
+         double gx;
+         if (!g(x, gx)) { have_prev = false; continue; }
+         if (have_prev && ((gprev < 0) != (gx < 0))) { lo = xprev; hi = x; glo = gprev; ghi = gx; found = true; }
+         xprev = x; gprev = gx; have_prev = true;
+      }
+      if (!found) { vt::Ev("PathEnd").str("case", id).str("sig", sig).str("exc", "no-coincidence").emit(); continue; }
+      bool ok = true;
+      for (int it = 0; it < 200 && ok; ++it) {
+         const double mid = 0.5 * (lo + hi);
+         if (mid == lo || mid == hi) break;
+         double gm;
+         if (!g(mid, gm)) { ok = false; break; }
+         if ((gm < 0) == (glo < 0)) { lo = mid; glo = gm; } else { hi = mid; ghi = gm; }
+      }
+      if (!ok) { vt::Ev("PathEnd").str("case", id).str("sig", sig).str("exc", "refused-in-bisection").emit(); continue; }
+      const double p0 = std::fabs(glo) < std::fabs(ghi) ? lo : hi;
+      int k = 0;
+      std::string exc;
+      for (double d : kOffsets) {
+         MssmPt q = p; param_ref(q, par) = p0 * (1 + d);
+         Built b = build(q);
+         if (!b.exc.empty()) { exc = b.exc; break; }
+         if (b.model.get_problems().have_problem()) { exc = "problem"; break; }
+         vt::Ev ev("Point");
+         ev.str("case", id).str("sig", sig).i("di", k++).num("d", d).num("m", p0 * (1 + d)).raw("v", vm::named_json(vm::mssm_results(b.model)));
+         ev.emit();
+      }
+      vt::Ev("PathEnd").str("case", id).str("sig", sig).str("exc", exc).emit();
+   }
+}
+
 } // namespace
 
 int main(int argc, char** argv)
@@ -387,6 +468,7 @@ int main(int argc, char** argv)
    else if (mode == "c07") run_c07(cases, rng);
    else if (mode == "c04") run_c04(cases, rng);
    else if (mode == "c05") run_c05(cases, rng);
+   else if (mode == "c11") run_c11(cases, rng);
    else { std::fprintf(stderr, "unknown mode %s\n", mode.c_str()); return 2; }
    vt::flush_trace();
    return 0;
